@@ -133,6 +133,8 @@ pub fn formula_counts(family: &str, param: usize, k: usize) -> Option<Vec<usize>
     Some(match family {
         // Z: one subgroup per index
         "Z" => vec![1; k],
+        // the trivial group, however it is presented: the group itself and nothing else
+        "trivial" => (1..=k).map(|j| if j == 1 { 1 } else { 0 }).collect(),
         // Z^2: sublattices of index j: sigma(j)
         "Z^2" => (1..=k).map(sigma).collect(),
         // Z^3: sum over d | j of d * sigma(d)
@@ -324,6 +326,18 @@ pub fn run(ctx: &mut Ctx) {
         deep.push(DeepCase { family: "irredundancy only: Klein bottle group".into(), param: 0, nr_gens: 2, rels: vec![vec![1, 2, -1, 2]], k });
         deep.push(DeepCase { family: "irredundancy only: Z2 x D_inf".into(), param: 0, nr_gens: 3, rels: vec![vec![1, 1], vec![2, 2], vec![3, 3], vec![1, 3, 1, 3], vec![2, 3, 2, 3]], k });
         deep.push(DeepCase { family: "irredundancy only: Z x Z3 semidirect (a b a^-1 = b^-1, b^3)".into(), param: 0, nr_gens: 2, rels: vec![vec![1, 2, -1, 2], vec![2, 2, 2]], k });
+    }
+    // degenerate presentations: no generators at all, every generator killed by a one-letter relator,
+    // free generators next to killed ones, repeated relators
+    for k in [1usize, 2, 5] {
+        deep.push(DeepCase { family: "trivial".into(), param: 0, nr_gens: 0, rels: vec![], k });
+        deep.push(DeepCase { family: "trivial".into(), param: 1, nr_gens: 1, rels: vec![vec![1]], k });
+        deep.push(DeepCase { family: "trivial".into(), param: 2, nr_gens: 2, rels: vec![vec![-2], vec![1]], k });
+        deep.push(DeepCase { family: "trivial".into(), param: 3, nr_gens: 3, rels: vec![vec![3], vec![1], vec![2], vec![1]], k });
+        deep.push(DeepCase { family: "trivial".into(), param: 4, nr_gens: 2, rels: vec![vec![1, 1], vec![1, 1, 1], vec![2, 1]], k });
+        deep.push(DeepCase { family: "Z".into(), param: 1, nr_gens: 2, rels: vec![vec![1]], k: k + 6 });
+        deep.push(DeepCase { family: "Z".into(), param: 2, nr_gens: 3, rels: vec![vec![3], vec![1], vec![3]], k: k + 6 });
+        deep.push(DeepCase { family: "cyclic".into(), param: 6, nr_gens: 2, rels: vec![vec![2], pw(&[1], 6), pw(&[1], 6)], k: k + 6 });
     }
     deep.push(DeepCase { family: "PSL2(Z)".into(), param: 0, nr_gens: 2, rels: vec![vec![1, 1], vec![2, 2, 2]], k: t.pick(15, 17) });
     deep.push(DeepCase { family: "PSL2(Z)".into(), param: 0, nr_gens: 2, rels: vec![vec![1, 1, 1], vec![2, 2]], k: t.pick(15, 17) });
